@@ -37,7 +37,7 @@ static const PropInfo kProps[] = {
     {"C13", "exploration", 1500000, 20000000,
      "one case = one fault-free seeded history over 1..3 managers (null/libc via interposed allocator, 5-function custom, completed-from-malloc/free, incomplete with any of 31 masks). distinct_nontrivial = distinct (op sequence, manager kinds, outcomes) with at least one allocation and two executed operations",
      ""},
-    {"C14", "fault_enumeration", 600000, 3000000,
+    {"C14", "fault_enumeration", 600000, 2400000,
      "one case = one seeded history with a target operation; the target's allocation request count N is measured fault-free, then EVERY k in 1..N is failed in fail-once and fail-from-k modes (plus seeded subsets), each on a freshly re-executed history. evaluations = simulated runs (trials); distinct_nontrivial = distinct (history, target result, k, mode) in which the injected failure actually fired",
      ""},
     {"C15", "exploration", 80000, 2400000,
